@@ -261,6 +261,10 @@ def run(chk, tier):
         want = (r'call:Vec::index\(self\.hops, Sub\(%s, 1\)\)|index\(self\.hops, Sub\(%s, 1\)\)' % (W(HR), W(HR))) if pos == 1 else r'call:Vec::index\(self\.hops, 0\)|index\(self\.hops, 0\)'
         if o.kind != 'return' or pos is None or len(cd) != 1 or not re.fullmatch(want, val):
             good, why = False, 'with highest_ttl_for_round %s 0 it returns %s (decisions %s)' % ('>' if pos == 1 else '=' if pos == 0 else '?', val[:120], [(vshow(a), v) for a, v, _ in o.st.decisions])
+    sat = r'(?:call:Vec::index|index)\(self\.hops, saturating_sub\(%s, 1\)\)' % W(HR)
+    if outs_ and all(o.kind == 'return' and not o.st.decisions and re.fullmatch(sat, vshow(o.value)) for o in outs_):
+        # the same function written without a branch: saturating_sub(n, 1) is n − 1 for n > 0 and 0 for n = 0
+        good, seen = True, {0, 1}
     if good and seen == {0, 1}:
         chk.ok('R5', 'target_hop', 'hops[highest_ttl_for_round − 1], hops[0] before any round')
     else:
@@ -277,7 +281,8 @@ def run(chk, tier):
             chk.fail('R5', name, fn_loc(f_), 'FlowState::%s is %s, expected %s' % (name, sorted(map(str, vals)), atom), key='R5|%s' % name)
 
     # the public readers of State hand the question to the FlowState of the flow asked for (the default flow for hops())
-    e5d = Engine(prog, inline_depth=0)
+    # a wrapper may answer through a sibling wrapper (hops() = hops_for_flow(default flow)): sibling State methods are inlined, nothing else
+    e5d = Engine(prog, inline_depth=1, opaque=[r'State::default_flow_id$'], inline_filter=lambda c: prog.fns.get(c, {}).get('impl_adt') == 'trippy_core::state::State')
     for name in ('hops', 'hops_for_flow', 'target_hop', 'is_target', 'is_in_round', 'round', 'round_count'):
         fs_ = prog.find(r'state::State::%s$' % name, unique=False)
         if not fs_:
